@@ -39,6 +39,20 @@ Definition fxp_cumsum (f : fmt) (total : Z) (slice : list Z) (r : rmode) (o : om
 Definition fxp_prod (f : fmt) (count : Z) (slice : list Z) (r : rmode) (o : omode) : outcome (fmt * wres) :=
   let fz := prod_fmt f count in
   bind (reduce_store fz r o [if 64 <=? nw fz then prod_py slice else prod_i64 (sg f) slice]) (fun w => Ok (fz, w)).
+(* sum / prod of one slice INTO a caller-chosen format ft (out= / out_like= / a sizing policy): functions._function_over_one_var takes
+   n_frac from the target, the raw function rescales the accumulated code by 2^(n_frac - result fraction bits) (functions._rescale_raw:
+   exact rationals for a negative shift of a code of more than 53 bits, Python integers when the scaled code needs 64 bits) and the
+   target stores it with set_val(raw=True) *)
+Definition acc_mval (wide signed : bool) (z : Z) : mval := if wide then MO (NI z) else if signed then MI z else MU z.
+Definition reduce_into (v : mval) (k : Z) (ft : fmt) (r : rmode) (o : omode) : outcome wres :=
+  bind (rescale ((k <? 0) && int_mag_ge v (2^53)) (precision_cast (nf ft)) v k) (fun m =>
+  bind (arr_of [m]) (fun av => set_val_real ft r o true (fst av) (snd av))).
+Definition fxp_sum_into (f : fmt) (total : Z) (slice : list Z) (ft : fmt) (r : rmode) (o : omode) : outcome wres :=
+  let wide := 64 <=? clog2 total + nw f in
+  reduce_into (acc_mval wide (sg f) (if wide then sum_py slice else sum_i64 (sg f) slice)) (nf ft - nf f) ft r o.
+Definition fxp_prod_into (f : fmt) (count : Z) (slice : list Z) (ft : fmt) (r : rmode) (o : omode) : outcome wres :=
+  let wide := 64 <=? count * nw f in
+  reduce_into (acc_mval wide (sg f) (if wide then prod_py slice else prod_i64 (sg f) slice)) (nf ft - count * nf f) ft r o.
 (* dot of two vectors (one entry of a matrix product): sum of products *)
 Definition fxp_dot (fx fy : fmt) (xs ys : list Z) (r : rmode) (o : omode) : outcome (fmt * wres) :=
   let fz := dot_fmt fx fy (Z.of_nat (length xs)) in
